@@ -413,6 +413,14 @@ func (jointr *jointRowReader) tryHashProbe(
 	if !jointr.hashJoinChecked[i] {
 		jointr.hashJoinChecked[i] = true
 
+		// The plan below is derived from the condition REDUCED with the first
+		// outer row: a conjunct such as `b.y > a.y` then looks like the
+		// inner-only filter `b.y > 5` and would be frozen into the hash table.
+		// Only equalities may involve more than one table.
+		if !hashJoinableCond(jspec.cond) {
+			return false, nil, nil, nil
+		}
+
 		_, innerSels, innerResidual, planOk := extractEquiJoinPlan(reducedWhere, innerAlias)
 		if !planOk {
 			return false, nil, nil, nil
@@ -466,6 +474,21 @@ func (jointr *jointRowReader) tryHashProbe(
 		return false, nil, nil, readErr
 	}
 	return true, probe, first, nil
+}
+
+func hashJoinableCond(cond ValueExp) bool {
+	for _, c := range splitAndConjuncts(cond) {
+		tables, hasUnqualified, safe := collectColTables(c)
+		if !safe {
+			return false
+		}
+		if len(tables) > 1 || hasUnqualified {
+			if cmp, ok := c.(*CmpBoolExp); !ok || cmp.op != EQ {
+				return false
+			}
+		}
+	}
+	return true
 }
 
 func (jointr *jointRowReader) Close() error {
